@@ -14,7 +14,9 @@ TEXT["C15"] = ("fault_enumeration", "batches of concurrent flows through the rea
 TEXT["C08"] = ("fault_enumeration", "each fault of the catalogue alone and seeded sequences of up to 5 (8) against the real client and server in every protocol/transport cell, stalled connections held open, followed by a fresh canary flow that must be served within 60 simulated seconds (bounded liveness once faults stop), listeners still bound, mains still running.", "DESIGN.md 4/C08")
 TEXT["C02"] = ("exploration", "seeded histories of uniquely numbered datagrams from several local applications to several targets through the real client(s) and server over every UDP-capable configuration, with idle gaps across the table TTLs and, for Shadowsocks, loss / duplication / reordering on the link; oracle over the recorded history: exactly-once (clean) or at-most-once whole-or-nothing (lossy) delivery to the right target, replies to the owning application only, correctly labelled.", "DESIGN.md 4/C02")
 TEXT["C11"] = ("model_checking", "the real packet-window filter is compared with a small executable reference model over every arrival order of length <= 5 drawn from the boundary alphabet (exhaustive) and over seeded long histories; the same arrival orders are then produced by the simulated network (duplication, reordering) between the real Shadowsocks-2022 client and server, where every datagram must be relayed exactly once and refusals must not end the session.", "DESIGN.md 4/C11")
+TEXT["C16"] = ("fault_enumeration", "exhaustive enumeration of the documented cipher, protocol, mode names, of all 2022 key lengths 0..48 and of a list of undocumented strings; each case boots the real main() functions in the simulator, where the set of bound listeners / datagram sockets is observable and a canary flow is run. Exhaustive over the stated case list.", "DESIGN.md 4/C16")
 NOTE = {
+ "C16": "trusted base as C01; QUIC endpoints are not simulated; algorithm identity is C03's",
  "C11": "reference model = the property's own predicate; exhaustive only over the stated alphabet and length; system half samples schedules",
  "C02": "trusted base as C01; QUIC rows not covered",
  "C08": "trusted base as C01; fault catalogue is the harness's; TCP side only in this check",
